@@ -123,7 +123,7 @@ def run_case(i, rng, rec, tier, state):
     if aged:
         rec.cls("history:aged-object")
     if which == "Polygon":
-        c = gen.polygon_case(rng, far_frac=0.05)
+        c = gen.polygon_case(rng, far_frac=0.05, unit_frac=0.08)
         if c.get("straight_corner") is not None:
             rec.cls("polygon:straight-corner" + (":first-three-collinear" if c["straight_corner"] == 1 else ""))
         if c["far"]:
